@@ -25,12 +25,12 @@ def run_backend(kind, workers=2):
         lab.run_tasks(ctasks, disable_progress=True, disable_top=True)
         res2 = lab.run_tasks(ctasks, bust_cache=True, disable_progress=True, disable_top=True)
         for t in ctasks:
-            want_ctx = {'shared': 1, t.name: ctx[t.name]}
+            want_ctx = {'shared': 1, t.name: ctx[t.name], 'applied': 1}
             if t not in res2 or res2[t]['context'] != want_ctx:
                 return f'{kind}: bust_cache re-run of cached {t}: context inside run() is {res2.get(t, {}).get("context") if t in res2 else "<task failed>"}, expected {want_ctx}'
     for t in tasks:
         r = res[t]
-        want_ctx = {'shared': 1, t.name: ctx[t.name]}
+        want_ctx = {'shared': 1, t.name: ctx[t.name], 'applied': 1}
         if r['context'] != want_ctx:
             return f'{kind}: context inside run() is {r["context"]}, expected filter_context(lab.context) = {want_ctx}'
         if kind == 'serial':
@@ -122,7 +122,7 @@ def main():
     except Exception:
         res = dict(reproduced=False, error=traceback.format_exc()[-1500:])
     if not a.obligation:
-        print(json.dumps([dict(name='c16:environment-probe', bounded=True, bound='3 backends x max_workers in {1, 2, None} x 2 probe tasks + bust_cache re-run of cached probes; context-leak probe; 4 two-call histories over the same task objects with a changed Lab context',
+        print(json.dumps([dict(name='c16:environment-probe', bounded=True, bound='3 backends x max_workers in {1, 2, None} x 2 probe tasks (narrowing AND transforming, non-idempotent filter_context) + bust_cache re-run of cached probes; context-leak probe; 4 two-call histories over the same task objects with a changed Lab context',
                                violation=bool(res.get('reproduced')), witness=[res] if res.get('reproduced') else [])], default=str))
     else:
         print(json.dumps(res, default=str))
